@@ -3,6 +3,7 @@ package main
 import (
 	"fmt"
 	"go/token"
+	"go/types"
 	"sort"
 	"strings"
 
@@ -305,10 +306,10 @@ func runC05(c *Ctx) {
 			}
 			return true
 		}
-		msgLeaves := expandCases(msgTtl, nil, 0)
+		msgLeaves := splitBoolPhiGuards(expandCases(msgTtl, nil, 0))
 		var cacheLeaves []leafCase
 		if cacheTtl != nil {
-			cacheLeaves = expandCases(cacheTtl, nil, 0)
+			cacheLeaves = splitBoolPhiGuards(expandCases(cacheTtl, nil, 0))
 		}
 		for _, cl := range classes {
 			key := "lifetime:" + cl.name
@@ -392,6 +393,17 @@ func runC05(c *Ctx) {
 			for top.Parent() != nil {
 				top = top.Parent()
 			}
+			// a new helper with a single call site belongs to the function that calls it (extract-helper refactoring)
+			for d := 0; d < 3 && isNewHelper(top); d++ {
+				site := soleCallSite(top)
+				if site == nil {
+					break
+				}
+				top = site.Parent()
+				for top.Parent() != nil {
+					top = top.Parent()
+				}
+			}
 			okSite := top == save || top.Name() == "readDump"
 			c.check(okSite, "store-site@"+funcName(f), instrPos(in), "store through the admission function / dump loader", "the backend is written outside saveRespToCache/readDump: the admission rules (TC, lifetimes) are bypassed")
 		})
@@ -418,10 +430,10 @@ func runC05(c *Ctx) {
 			good := false
 			if ok && bo.Op == token.SUB && bo.Y == ssa.Value(delta) {
 				for _, g := range guardsOfInstr(in) {
-					if cm, ok := g.asCmp(); ok && cm.X == bo.X && cm.Y == ssa.Value(delta) && cm.Op == token.GTR {
+					if cm, ok := g.asCmp(); ok && sameLoadedPlace(cm.X, bo.X) && cm.Y == ssa.Value(delta) && cm.Op == token.GTR {
 						good = true
 					}
-					if cm, ok := g.asCmp(); ok && cm.Y == bo.X && cm.X == ssa.Value(delta) && cm.Op == token.LSS {
+					if cm, ok := g.asCmp(); ok && sameLoadedPlace(cm.Y, bo.X) && cm.X == ssa.Value(delta) && cm.Op == token.LSS {
 						good = true
 					}
 				}
@@ -518,6 +530,28 @@ func runC05(c *Ctx) {
 				}
 			}
 			c.check(isCopy, key+":copy", instrPos(r), "the answer handed out and aged is item.resp.Copy()", "the hit path ages and returns "+exprStr(rv[0])+", not a copy of the stored message: the TTL rewrite lands in the cache entry and every further hit is aged again")
+			// the aging call is the only TTL writer of the answer handed out: a second rewrite (a cap by the remaining
+			// lifetime, a floor) after it undoes "aged by whole seconds, never below 1"
+			if isCopy {
+				nWriters := 0
+				for _, rr := range referrers(rv[0]) {
+					ci, ok := rr.(ssa.CallInstruction)
+					if !ok || ci.Common().IsInvoke() {
+						continue
+					}
+					isArg := false
+					for _, a := range ci.Common().Args {
+						if a == rv[0] {
+							isArg = true
+						}
+					}
+					if isArg && writesTTL(ci.Common().StaticCallee(), 0) && reachesInstr(rr, r) {
+						nWriters++
+					}
+				}
+				c.check(nWriters <= 1, key+":one-ttl-writer", instrPos(r), "the answer's TTLs are rewritten by the aging call only",
+					fmt.Sprintf("%d calls rewrite the TTLs of the answer before it is returned: a rewrite after the aging call (e.g. a cap by the entry's remaining lifetime, which truncates to 0 in the last second) undoes 'aged by whole seconds, never below 1'", nWriters))
+			}
 			var beforeGuard, lazyGuard bool
 			var nowVal ssa.Value
 			for _, g := range guardsOfInstr(r) {
@@ -578,6 +612,24 @@ func runC05(c *Ctx) {
 						}
 					}
 				}
+				// the caller hands the aged answer on as it is
+				for _, r := range referrers(ci) {
+					ex, ok := r.(*ssa.Extract)
+					if !ok || ex.Index != 0 {
+						continue
+					}
+					for _, r2 := range referrers(ex) {
+						cc, ok := r2.(ssa.CallInstruction)
+						if !ok || cc.Common().IsInvoke() {
+							continue
+						}
+						for _, a := range cc.Common().Args {
+							if a == ssa.Value(ex) && writesTTL(cc.Common().StaticCallee(), 0) {
+								c.fail("hit-call@"+funcName(f)+":no-ttl-rewrite", instrPos(r2), "the TTLs of a cache hit are rewritten again by %s after the lookup aged them", callName(cc))
+							}
+						}
+					}
+				}
 				c.check(isC && n == 5 && flagOK, "hit-call@"+funcName(f), instrPos(in), "lookup called with lazy = (lazy_cache_ttl > 0) and stale TTL 5",
 					fmt.Sprintf("lookup called with stale TTL %s / lazy flag %s (expected 5 and lazy_cache_ttl > 0)", exprStr(ci.Call.Args[3]), exprStr(ci.Call.Args[2])))
 			})
@@ -601,6 +653,7 @@ func runC05(c *Ctx) {
 			}
 		})
 		nExec := 0
+		sfBody := withNewHelpers(sfFn)
 		eachInstrDeep(dl, func(f *ssa.Function, in ssa.Instruction) {
 			ci, ok := in.(ssa.CallInstruction)
 			if !ok || !strings.HasSuffix(callName(ci), ".ExecNext") {
@@ -608,7 +661,7 @@ func runC05(c *Ctx) {
 			}
 			nExec++
 			_, isGo := in.(*ssa.Go)
-			c.check(f == sfFn && !isGo, "refresh-inside-singleflight", instrPos(in), "the refresh executes inside the singleflight function", "a background refresh is started outside the singleflight function: every stale hit starts its own upstream query")
+			c.check(sfBody[f] && !isGo, "refresh-inside-singleflight", instrPos(in), "the refresh executes inside the singleflight function", "a background refresh is started outside the singleflight function: every stale hit starts its own upstream query")
 			// Forget must not run before the refresh
 			eachInstr(f, func(x ssa.Instruction) {
 				cc, ok := x.(ssa.CallInstruction)
@@ -629,7 +682,7 @@ func runC05(c *Ctx) {
 			fn := f
 			eachInstr(f, func(x ssa.Instruction) {
 				cc, ok := x.(ssa.CallInstruction)
-				if !ok || callName(cc) != "(*golang.org/x/sync/singleflight.Group).Forget" || fn == sfFn {
+				if !ok || callName(cc) != "(*golang.org/x/sync/singleflight.Group).Forget" || sfBody[fn] {
 					return
 				}
 				c.fail("forget-only-by-refresh@"+funcName(fn), instrPos(x), "the singleflight key is forgotten outside the refresh function: the Forget is not tied to the refresh it was meant for, so it can release the key of a later refresh that is still in flight and a second refresh for the same question starts")
@@ -856,4 +909,124 @@ func checkTTLLoopsSkipOPT(c *Ctx) {
 				"a record TTL is rewritten without excluding the OPT pseudo-record, whose TTL field holds the extended rcode and flags (DO bit)")
 		})
 	}
+}
+
+// writesTTL: f (or a static callee of the analysed module, two levels down) stores into a record header's Ttl field.
+func writesTTL(f *ssa.Function, depth int) bool {
+	if f == nil || len(f.Blocks) == 0 || depth > 2 {
+		return false
+	}
+	found := false
+	for _, g := range withAnon(f) {
+		eachInstr(g, func(in ssa.Instruction) {
+			if st, ok := in.(*ssa.Store); ok {
+				if k, _ := fieldKey(st.Addr); k == "github.com/miekg/dns.RR_Header.Ttl" {
+					found = true
+				}
+			}
+			if ci, ok := in.(ssa.CallInstruction); ok && !found {
+				if sc := ci.Common().StaticCallee(); sc != nil && sc != f && inMosdns(sc) && writesTTL(sc, depth+1) {
+					found = true
+				}
+			}
+		})
+	}
+	return found
+}
+
+// reachesInstr: control can flow from instruction a to instruction b.
+func reachesInstr(a, b ssa.Instruction) bool {
+	if a.Block() == b.Block() {
+		ia, ib := -1, -1
+		for i, in := range a.Block().Instrs {
+			if in == a {
+				ia = i
+			}
+			if in == b {
+				ib = i
+			}
+		}
+		if ia < ib {
+			return true
+		}
+	}
+	seen := map[*ssa.BasicBlock]bool{}
+	var walk func(x *ssa.BasicBlock) bool
+	walk = func(x *ssa.BasicBlock) bool {
+		for _, s := range x.Succs {
+			if s == b.Block() {
+				return true
+			}
+			if !seen[s] {
+				seen[s] = true
+				if walk(s) {
+					return true
+				}
+			}
+		}
+		return false
+	}
+	return walk(a.Block())
+}
+
+// splitBoolPhiGuards: a leaf guarded by a named boolean that is itself a phi (`keepStale := false; switch { case …:
+// keepStale = lazy > 0 }; if keepStale {…}`) is split into one leaf per incoming edge of that boolean: the edge's own
+// guards plus "edge value == truth"; edges whose constant value contradicts the truth are dropped.
+func splitBoolPhiGuards(leaves []leafCase) []leafCase {
+	var out []leafCase
+	for _, lf := range leaves {
+		work := []leafCase{lf}
+		for round := 0; round < 3; round++ {
+			var next []leafCase
+			changed := false
+			for _, w := range work {
+				idx := -1
+				for i, g := range w.guards {
+					if ph, ok := g.Cond.(*ssa.Phi); ok && len(ph.Edges) > 1 {
+						if b, isB := ph.Type().Underlying().(*types.Basic); isB && b.Kind() == types.Bool {
+							idx = i
+							break
+						}
+					}
+				}
+				if idx < 0 {
+					next = append(next, w)
+					continue
+				}
+				changed = true
+				g := w.guards[idx]
+				ph := g.Cond.(*ssa.Phi)
+				rest := append(append([]guard(nil), w.guards[:idx]...), w.guards[idx+1:]...)
+				base := map[string]bool{}
+				for _, bg := range guardsOf(ph.Block()) {
+					base[guardKey(bg)] = true
+				}
+				for i, e := range ph.Edges {
+					if b, isC := constBool(e); isC && b != g.Truth {
+						continue
+					}
+					gs := append([]guard(nil), rest...)
+					pred := ph.Block().Preds[i]
+					for _, pg := range guardsOf(pred) {
+						if !base[guardKey(pg)] {
+							gs = append(gs, pg)
+						}
+					}
+					if iff, ok := terminator(pred).(*ssa.If); ok && pred.Succs[0] != pred.Succs[1] {
+						gs = append(gs, guard{Cond: iff.Cond, Truth: pred.Succs[0] == ph.Block(), If: iff})
+					}
+					if _, isC := constBool(e); !isC {
+						gs = append(gs, guard{Cond: e, Truth: g.Truth})
+					}
+					next = append(next, leafCase{val: w.val, guards: gs, pred: w.pred})
+				}
+			}
+			work = next
+			if !changed {
+				break
+			}
+		}
+		out = append(out, work...)
+	}
+	return out
 }
